@@ -3,7 +3,7 @@ import SqVerif.VNetWFBase
 L2 — `remote_new_qubit` preserves well-formedness (C02), and the exact
 success condition of a creation (C07).
 -/
-namespace SqVerif.VNet
+namespace SqVerif.VNet.WFP
 open List
 
 def newNode (s : Net) (n : Node) : Node :=
@@ -270,4 +270,4 @@ theorem wfp_stepNew {s : Net} (w : WFp none s) (a : Nat) : WFp none (stepNew s a
     · rw [e]; exact w
     · rw [e]; exact w
 
-end SqVerif.VNet
+end SqVerif.VNet.WFP
